@@ -365,7 +365,9 @@ func InputForm(form, setup string) (cwd, input, gofile string) {
 	modRoot := "{W}/mod"
 	relFromMod := strings.TrimPrefix(setup, modRoot+"/")
 	switch form {
-	case "rel-pkgdir":
+	case "rel-pkgdir", "setup-is-link":
+		// (setup-is-link: the same command line; the case makes the setup file's
+		// name a symbolic link to a file kept elsewhere)
 		return dir, base, ""
 	case "dot-rel-pkgdir":
 		return dir, "./" + base, ""
